@@ -1,6 +1,6 @@
 """Which units decide which property (DESIGN.md sections 1, 5)."""
 
-VERUS_UNITS = ['U-FMT', 'U-REACH', 'U-COMPACTAS', 'U-SANITY', 'U-RESOLVE', 'U-CONTAINS', 'U-CALLS', 'U-DESCR', 'U-DERIVES', 'U-MIXED']
+VERUS_UNITS = ['U-FMT', 'U-REACH', 'U-COMPACTAS', 'U-SANITY', 'U-RESOLVE', 'U-CONTAINS', 'U-CALLS', 'U-DESCR', 'U-DERIVES', 'U-MIXED', 'U-BUILDERS']
 
 PROPS = {
     'C15': {
@@ -104,6 +104,19 @@ PROPS = {
         'not_covered': [
             'the first sentence of C18 (wire-faithful shape of the field list): create_composite_ir_kind and struct token emission reach syn / proc_macro2',
             'token emission of the derives and attributes (Derives::to_tokens)',
+        ],
+    },
+    'C16': {
+        'level': 'proof',
+        'verus': ['U-BUILDERS', 'U-DERIVES'],
+        'kani': [],
+        'trusted_base': ['Verus 0.2026.09.13, Z3, rustc 1.98.1'],
+        'assumptions': [
+            'ASSUMED std contracts: HashSet::extend(iter) = union with the items of the iterator; HashMap::entry(k).or_default(); Derives::default() = two empty sets; HashSet / HashMap over opaque syn keys as mathematical set / map',
+        ],
+        'not_covered': [
+            'the second sentence of C16 (substitute insert / insert-if-absent / extend, absolute-path and generic-form errors): substitutes.rs is syn::Path surgery',
+            'flatten_recursive_derives (how the recursive registrations reach the descendants): syn + HashMap + iterator chains',
         ],
     },
 }
